@@ -24,7 +24,8 @@ RULE = ("programs: 2-25 (40 thorough) instructions over 1-4 leaves (shapes from 
         "permuted construction gives the same gradients; call log of BackwardFunction.__call__: reachable nodes "
         "exactly once, unreachable never, consumers before producers.  non-trivial: the differentiable sub-graph "
         "has a node with >=2 reachable consumers or a multi-output op, and depth >= 3; distinct by program hash"
-        " Also: nn ops in programs, shared batch-norm buffers, caller-mutated operand lists, Parameter leaves; round 4: the graph is grown above the old root and differentiated again with the old root's live .grad handle as upstream gradient (leaves must hold 5 x the first gradient).")
+        " Also: nn ops in programs, shared batch-norm buffers, caller-mutated operand lists, Parameter leaves; round 4: the graph is grown above the old root and differentiated again with the old root's live .grad handle as upstream gradient (leaves must hold 5 x the first gradient)."
+        " Round 5: leaves copy-constructed from other leaves (Tensor(t), nn.Parameter(t)).")
 ASSUMPTIONS = ["finite differences (h=1e-6) of synapgrad's own forward re-executed under no_grad in float64; tolerance 2e-5*scale",
                "ops are restricted to those that are smooth on the generated values (no ties/kinks)"]
 
